@@ -113,7 +113,7 @@ for n in ['16', '24', '32']:
     J('mem_get_le%s.contract' % n, 'h_enf_mem_get_le' + n, ['C17', 'C02', 'C05'], enforce='mem_get_le' + n)
 J('rabs_desc_read.contract', 'h_enf_rabs_desc_read', ['C17', 'C02'], enforce='rabs_desc_read')
 J('ans_read_init.contract', 'h_enf_ans_read_init', ['C17', 'C02'], enforce='ans_read_init', replace=['mem_get_le16', 'mem_get_le24'] if False else [])
-for lo, hi in [(1, 16), (17, 32), (33, 64), (65, 96), (97, 128), (129, 160), (161, 192), (193, 224), (225, 240), (241, 255)]:
+for lo, hi in [(lo, min(lo + 15, 255)) for lo in range(1, 256, 16)]:   # 16 tiles of 16 probabilities: one per core
     J('rabs.step.p%d_%d' % (lo, hi), 'h_rabs_step', ['C17'], replace=['fastdiv'], defines=DEFS + ['-DP0_LO=%d' % lo, '-DP0_HI=%d' % hi], native=True, timeout=1500, cost=8)
 J('ans.header', 'h_ans_header', ['C17', 'C05', 'C06'], native=True)
 for P in [12, 13, 14, 15, 16, 17, 18, 19, 20]:
